@@ -10,7 +10,7 @@ import subprocess
 RUNNER = """  subroutine run_{j}(n, kin)
     integer, intent(in) :: n, kin
     integer :: m, k, r, og, j1, j2
-    integer :: a(n + 1), b(0:n), q(n + 1, n + 1)
+    integer :: a(n + 1), b(0:n), q(n + 1, n + 1), p(2:4, 0:3)
     type(ty_{j}) :: w
     m = n + 1
     k = kin
@@ -27,12 +27,17 @@ RUNNER = """  subroutine run_{j}(n, kin)
         q(j1, j2) = 1000 + 100 * j1 + 10 * j2 + 3
       end do
     end do
+    do j2 = 0, 3
+      do j1 = 2, 4
+        p(j1, j2) = 2000 + 100 * j1 + 10 * j2 + 4
+      end do
+    end do
     w%f = 3
     do j1 = 1, 4
       w%d(j1) = 50 + j1
     end do
-    call drv_{j}(n, m, k, r, a, b, q, w, og)
-    print '(A,*(1X,I0))', "CASE", {j}, n, kin, n, m, k, r, a, b, q, w%f, w%d, og
+    call drv_{j}(n, m, k, r, a, b, q, p, w, og)
+    print '(A,*(1X,I0))', "CASE", {j}, n, kin, n, m, k, r, a, b, q, p, w%f, w%d, og
   end subroutine run_{j}
 """
 
